@@ -831,6 +831,8 @@ class SymExec(object):
                         return ft
                     ct = ('call', ft, tuple(args), kws)
                     fd_ = self.resolve(ft, st) if self.inline else None
+                    if fd_ is not None and getattr(self, 'fork_filter', None) is not None and not self.fork_filter(st, ft):
+                        fd_ = None
                     if fd_ is not None:
                         r_ = self.inline_expr(fd_, ft, tuple(args), kws, st)
                         if r_ is not None:
@@ -1527,6 +1529,8 @@ class SymExec(object):
             return None
         probe = st.copy()
         f = self.ev(call_node.func, probe)
+        if getattr(self, 'fork_filter', None) is not None and not self.fork_filter(st, f):
+            return None
         if f[0] == 'ifexp':
             # the callee is chosen by a conditional (dispatch table): one fork per choice, under its condition
             try:
